@@ -648,3 +648,31 @@ Proof.
       * destruct (mem r ps) eqn:Em; [specialize (I2 eq_refl); discriminate|]. cbn [b2n] in I3. lia.
     + repeat split; auto.
 Qed.
+
+Definition is_nil {A} (l : list A) : bool := match l with [] => true | _ => false end.
+Lemma hr_PortData m p f l w ps ids n :
+  handle_received m (PortData p f l w ps ids) n =
+  match lookup p (ports m) with
+  | Some (Connected c) =>
+      if rx_open c then
+        if is_nil ps then Proto PEmptyPorts []
+        else match ins_out ps (outstanding m) with
+             | None => Proto PPortTwice []
+             | Some o =>
+                 let size := PORT_COST * len ps in
+                 if (size <? 4294967296) && (size <=? cfg_chunk m) then
+                   if (used c + size <? 4294967296) && (used c + size <=? cfg_buffer m) then
+                     Done (m <| outstanding := o |>
+                             <| ports := insert p (Connected (c <| rxq := rxq c ++ [(size, ps)] |>)) (ports m) |>)
+                          [PortRequests p ps]
+                   else Proto POverdraw []
+                 else Proto PPortChunk []
+             end
+      else Proto PPortDataNotConnected []
+  | _ => Proto PPortDataNotConnected []
+  end.
+Proof.
+  cbn [handle_received]. destruct (lookup p (ports m)) as [[|c]|]; try reflexivity.
+  destruct (rx_open c); [|reflexivity]. destruct ps; reflexivity.
+Qed.
+
